@@ -111,3 +111,47 @@ theorem Session.modules_sameCore (cfg : Cfg) (p : Part) (r : Req) (s : Session) 
     (Session.vikja_sameCore p r) (Session.odal_sameCore p r) (Session.dagaz_sameCore p r) s
 
 end Hagall
+
+namespace Hagall
+
+/-! ### no signed latency measurement anywhere: kept by every request that does not start one -/
+
+def Req.isLatency : Req → Bool
+  | .signedLatency .. => true
+  | _ => false
+
+theorem Session.latOf_nil {s : Session} (h : s.lats = []) (pid : Nat) : s.latOf pid = {} := by
+  simp [Session.latOf, h]
+
+theorem Session.abandoned_nil {s : Session} (h : s.lats = []) (p : Part) : s.abandoned p = [] := by
+  simp [Session.abandoned, Session.latOf_nil h]
+
+theorem Session.core_lats_nil (cfg : Cfg) (p : Part) (r : Req) (hint : Nat) (s : Session) (h : s.lats = [])
+    (hr : r.isLatency = false) : (s.core cfg p r hint).1.lats = [] := by
+  unfold Session.core
+  cases r <;> simp only [Req.isLatency] at hr <;> (try unfold_core) <;>
+    (try simp only [Session.latOf_nil h]) <;> (repeat' split) <;>
+    simp_all [Session.setLat, Session.removeEntity, Lat.sendPing]
+
+theorem Session.handle_lats_nil (cfg : Cfg) (p : Part) (r : Req) (hint : Nat) (s : Session) (h : s.lats = [])
+    (hr : r.isLatency = false) : (s.handle cfg p r hint).1.lats = [] := by
+  unfold Session.handle Res.andThen
+  have h1 := Session.core_lats_nil cfg p r hint s h hr
+  rcases hc : s.core cfg p r hint with ⟨s1, ds1, o1⟩
+  rw [hc] at h1
+  simp only []
+  cases o1 with
+  | ok =>
+    simp only []
+    have := (Session.modules_sameCore cfg p r s1).2.2.2.2.2.2.2
+    rcases hm : s1.modules cfg p r with ⟨s2, ds2, o2⟩
+    rw [hm] at this
+    simp only [] at this ⊢
+    rw [this]; exact h1
+  | connError => exact h1
+  | panic site => exact h1
+
+theorem Session.leave_lats_nil (cfg : Cfg) (s : Session) (pid : Nat) (h : s.lats = []) : (s.leave cfg pid).1.lats = [] := by
+  simp [Session.leave, h]
+
+end Hagall
